@@ -2,10 +2,11 @@
    Statements only.  A record cell is the list of its field values; validity looks at the primary
    field only.  Whole-record reads/writes are C01 at V = record; get_single(copy=True) is astype
    with the field projection (OpsProofs); a write through a field view is the whole-record replace
-   of the addressed pixels with that one field changed. *)
+   of the addressed pixels with that one field changed (ViewProofs.v: map-level theorems for any
+   well-formed parent and any duplicate-free pixel list). *)
 From Coq Require Import QArith.
 From HS Require Import Prelude Cov Map Spec Ops Spec2 Params AtFold MapProofs UpdateProofs HistoryProofs
-     LayoutProofs AccountProofs OpsProofs Exec Exec2 ExecProofs.
+     LayoutProofs AccountProofs OpsProofs ViewProofs Exec Exec2 ExecProofs.
 Open Scope Z_scope.
 
 (* a pixel is valid iff its primary field differs from the sentinel *)
@@ -36,6 +37,27 @@ Theorem C14_view_write_changes_one_field :
     znth q0 (zupd v j x) i = if (j =? i) && (0 <=? j) && (j <? zlen v) then x else znth q0 v i.
 Proof. intros v j i x. apply znth_zupd. Qed.
 
+(* the same on maps: view[pixels] = x replaces, at each addressed pixel, the stored record by the same
+   record with the field set; the result is well formed and every other pixel is untouched *)
+Theorem C14_view_write_on_a_map :
+  forall (P : params) (F : Type) (setf : p_V P -> F -> p_V P) (m : smap (p_V P)) (ps : list Z) (x : Z -> F),
+    wf P m -> NoDup ps -> (forall p, In p ps -> 0 <= p < npix (p_V P) m) ->
+    wf P (view_write P F setf m ps x) /\ npix (p_V P) (view_write P F setf m ps x) = npix (p_V P) m /\
+    forall q, 0 <= q < npix (p_V P) m ->
+      read (p_V P) (p_dv P) (view_write P F setf m ps x) q =
+      if existsb (Z.eqb q) ps then setf (read (p_V P) (p_dv P) m q) (x q) else read (p_V P) (p_dv P) m q.
+Proof. exact view_write_spec. Qed.
+
+(* every observation of a record that the field setter does not change — any other field, and validity
+   when the field is not the primary one — is unchanged at every pixel of the parent *)
+Theorem C14_view_write_leaves_the_other_fields_and_validity :
+  forall (P : params) (F : Type) (setf : p_V P -> F -> p_V P) (A : Type) (obs : p_V P -> A)
+         (m : smap (p_V P)) (ps : list Z) (x : Z -> F) q,
+    wf P m -> NoDup ps -> (forall p, In p ps -> 0 <= p < npix (p_V P) m) -> 0 <= q < npix (p_V P) m ->
+    (forall v y, obs (setf v y) = obs v) ->
+    obs (read (p_V P) (p_dv P) (view_write P F setf m ps x) q) = obs (read (p_V P) (p_dv P) m q).
+Proof. exact view_write_preserves. Qed.
+
 (* the view guard of the property: a write through a view to a pixel that is invalid in the parent
    is rejected and leaves the parent unchanged (the L0 branch of the interpreter's op 27) *)
 Theorem C14_rejected_view_write_leaves_parent_unchanged :
@@ -65,5 +87,7 @@ Print Assumptions C14_valid_iff_primary.
 Print Assumptions C14_record_read_last_written.
 Print Assumptions C14_field_copy_refines.
 Print Assumptions C14_view_write_changes_one_field.
+Print Assumptions C14_view_write_on_a_map.
+Print Assumptions C14_view_write_leaves_the_other_fields_and_validity.
 Print Assumptions C14_rejected_view_write_leaves_parent_unchanged.
 Print Assumptions C14_hypotheses_satisfiable.
